@@ -200,12 +200,13 @@ def check_case(case):
     return result(viol, nontrivial, cl, info)
 
 
-def wild_newton_step(case, out):
-    """KF-PN-WILD-STEP root cause, established twice: the implementation takes an astronomically large step
-    (`_impl_wild`, a probe ON the code under test) AND reference maths confirm a vanishing-curvature point on the way
+def wild_newton_step(case, out, nonfinite=False):
+    """KF-PN-WILD-STEP root cause, established twice: the implementation takes an astronomically large step or the
+    judged output itself is non-finite (`_impl_wild`, a probe ON the code under test; `nonfinite`) AND reference maths confirm a vanishing-curvature point on the way
     (`predicted_wild_step` at the start or at one of the first three outer iterates, or `saturated_iterate`).  The
     second leg keeps a defect that merely produces huge steps from hiding behind the known finding."""
-    if not _impl_wild(case, out):
+    out_nf = out is not None and getattr(out, "w", None) is not None and not np.all(np.isfinite(np.asarray(out.w, float)))
+    if not (nonfinite or out_nf or _impl_wild(case, out)):
         return False
     import json
     from .c03 import start_point
